@@ -797,6 +797,9 @@ func evalActionSet(node *ActionExpression, env *Environment) Object {
 		return val
 	}
 
+	// the operand may be the environment's own object of another attribute, which later clauses change in place
+	val = copyObject(val)
+
 	id, ok := node.Left.(*Identifier)
 	if ok {
 		// We need to validate left hand side is not a keyword
@@ -821,6 +824,18 @@ func evalActionSet(node *ActionExpression, env *Environment) Object {
 	}
 
 	return newError("invalid assignation to: %s", node.String())
+}
+
+// copyObject returns a copy of a data object that shares nothing with it
+func copyObject(obj Object) Object {
+	item := obj.ToDynamoDB()
+
+	c, err := MapToObject(&item)
+	if err != nil {
+		return obj
+	}
+
+	return c
 }
 
 func evalActionAdd(node *ActionExpression, env *Environment) Object {
